@@ -93,7 +93,7 @@ def c01_protocol(ctx):
     new = prog.one(RAW + "RawCommunicator::new")
     want = {"{closure#0}": ("Out", True), "{closure#1}": ("Err", True), "{closure#2}": ("In", False)}
     for cname, (var, requested) in want.items():
-        c = prog.fn(RAW + "RawCommunicator::new::" + cname)
+        c = prog.as_written.fn(RAW + "RawCommunicator::new::" + cname)      # modular view: the three helper-creating closures as units
         if c is None:
             ctx.missing("R01.8", "RawCommunicator::new::" + cname)
             continue
